@@ -12,7 +12,9 @@ import (
 	"os"
 	"sort"
 	"strings"
+	"sync/atomic"
 	"testing"
+	"time"
 )
 
 // Step is one action of a behaviour: op name, its arguments, and the required observables.
@@ -88,6 +90,28 @@ func runBehaviour(w World, id int, steps []Step) *Mismatch {
 			keys = append(keys, k)
 		}
 		sort.Strings(keys)
+		if want, ok := st["res"]; ok && mm == nil {
+			if ws := fmt.Sprint(want); ws != "free" && got["res"] != ws {
+				mm = &Mismatch{id, w.Name(), i, st.Str("op"), "res", ws, got["res"]}
+				break
+			}
+		}
+		var bang []string
+		for k := range got {
+			if strings.HasPrefix(k, "!") {
+				bang = append(bang, k)
+			}
+		}
+		sort.Strings(bang)
+		for _, k := range bang {
+			if g := got[k]; g != "ok" {
+				mm = &Mismatch{id, w.Name(), i, st.Str("op"), k, "ok", g}
+				break
+			}
+		}
+		if mm != nil {
+			break
+		}
 		for _, k := range keys {
 			if obs[k] == "free" {
 				continue
@@ -135,11 +159,28 @@ func TestVerifReplay(t *testing.T) {
 	sc := bufio.NewScanner(f)
 	sc.Buffer(make([]byte, 1<<20), 1<<26)
 	nb, nrun, nmm := 0, 0, 0
+	// progress file + watchdog: a crash or a hang is attributed to the behaviour being replayed
+	prog, _ := os.Create(out + ".progress")
+	var cur int64 = -1
+	var curStart int64
+	go func() {
+		for {
+			time.Sleep(200 * time.Millisecond)
+			c, st := atomic.LoadInt64(&cur), atomic.LoadInt64(&curStart)
+			if c >= 0 && time.Now().UnixNano()-st > int64(8*time.Second) && atomic.LoadInt64(&cur) == c {
+				fmt.Fprintf(os.Stderr, "WATCHDOG: behaviour %d exceeded 8s\n", c)
+				os.Exit(3)
+			}
+		}
+	}()
 	for sc.Scan() {
 		var steps []Step
 		if err := json.Unmarshal(sc.Bytes(), &steps); err != nil {
 			t.Fatalf("behaviour %d: %v", nb, err)
 		}
+		atomic.StoreInt64(&curStart, time.Now().UnixNano())
+		atomic.StoreInt64(&cur, int64(nb))
+		prog.WriteAt([]byte(fmt.Sprintf("%-12d", nb)), 0)
 		for _, w := range ws {
 			nrun++
 			if mm := runBehaviour(w, nb, steps); mm != nil {
@@ -151,6 +192,7 @@ func TestVerifReplay(t *testing.T) {
 		}
 		nb++
 	}
+	atomic.StoreInt64(&cur, -1)
 	enc.Encode(map[string]interface{}{"summary": true, "behaviours": nb, "runs": nrun, "mismatches": nmm, "worlds": len(ws)})
 }
 
